@@ -517,6 +517,12 @@ pub fn run_history<S: Service>(config: &iceoryx2::config::Config, cfg: RCfg, scr
                 fail!("held_response_changed", "a held response of request #{:x} changed after the step: {:?}", rid, r.payload());
             }
         }
+        // the request chunk an ActiveRequest refers to must not change while it is held (C02 for request payloads)
+        for a in &act {
+            if check_payload(a.a.payload()) != Some(a.rid) {
+                fail!("held_request_changed", "the request #{:x} held by server {} through its ActiveRequest changed after step '{}': {:?}", a.rid, a.server, trace.last().cloned().unwrap_or_default(), a.a.payload());
+            }
+        }
         // a queued response must stay queued until it is received or its pending response is dropped
         for p in &pend {
             let queued = (0..cfg.servers).any(|s2| !chan_uncertain.contains(&(p.client, p.ch, s2)) && chan_q.get(&(p.client, p.ch, s2)).map(|q| q.iter().any(|e| e.0 == p.rid)).unwrap_or(false));
